@@ -48,8 +48,8 @@ pub fn json_equal(real: &J, exp: &J, default_bool: bool) -> bool {
 
 fn short(j: &J) -> String {
     let s = serde_json::to_string(j).unwrap_or_default();
-    if s.len() > 160 {
-        format!("{}...", &s[..160])
+    if s.chars().count() > 160 {
+        format!("{}...", s.chars().take(160).collect::<String>())
     } else {
         s
     }
